@@ -180,7 +180,7 @@ def step (s : S) (line : String) : S × String :=
         let seqS := if m.isDigital then (if f.seq.isEmpty then "-" else hexOfBytes f.seq) else oStr (some f.seq)
         let l := "ok name=" ++ oStr (some f.name) ++ " acc=" ++ oStr (some f.acc) ++ " desc=" ++ oStr (some f.desc)
           ++ " src=" ++ oStr (some f.source) ++ s!" n={f.seq.length} L={f.seq.length} seq=" ++ seqS ++ " ss=" ++ oStr f.ss
-        (s, f.xr.foldl (fun acc t => acc ++ " xr=" ++ oStr (some t.1) ++ "," ++ oStr (some t.2)) l)
+        (s, f.xr.foldl (fun acc t => acc ++ " xr=" ++ oStr (some t.1) ++ "," ++ oStr (some t.2)) l ++ " pad=ok")
   | "swap" :: _ => if s.b.isNone then (s, "noswap") else ({ a := s.b, b := s.a }, "ok")
   | "digitize" :: _ =>
     match s.a, (arg? ws "abc").bind abcOf with
